@@ -141,13 +141,24 @@ where
         let requested = naive;
 
         loop {
-            if let Some(mut dt) = self.tz.from_local_datetime(&naive).latest() {
+            let local = self.tz.from_local_datetime(&naive);
+
+            // The requested time exists: take its later instant if it is ambiguous. Otherwise it
+            // fell in a gap and the first instant of the first valid time after it is wanted, even
+            // if clocks are set back right after the gap (that time is then ambiguous too).
+            let found = if naive == requested {
+                local.latest()
+            } else {
+                local.earliest()
+            };
+
+            if let Some(mut dt) = found {
                 // A minute step may land past the end of a gap that does not end on a whole
                 // minute: walk back to the first valid second after the requested time.
                 while naive > requested {
                     naive -= TimeDelta::seconds(1);
 
-                    match self.tz.from_local_datetime(&naive).latest() {
+                    match self.tz.from_local_datetime(&naive).earliest() {
                         Some(prev) => dt = prev,
                         None => break,
                     }
